@@ -527,6 +527,10 @@ func c06Balanced(p *Prog, r *Report) {
 			r.Exempt("C06.d", fi.Key, p.pos(fi.Decl), "lock wrapper: returns with the receiver's mutex held/released by contract")
 			continue
 		}
+		if sum := p.lockHelper(fi); len(sum.Acquires) > 0 {
+			r.Exempt("C06.d", fi.Key, p.pos(fi.Decl), "lock helper: returns with "+heldString(sum.Acquires)+" held together with the function that releases them (its callers are checked for calling it)")
+			continue
+		}
 		n++
 		lr := p.LockFlow(fi, nil)
 		ok := true
